@@ -21,7 +21,7 @@ RULE = (
     ">= 2 io points queried at >= 20 points incl. outside points; distinct = (kind, parameter, table hash)"
 )
 REQUIRED = ["interp.node", "interp.gridline", "interp.cell_range", "interp.clamp", "interp.not_nan", "interp.sign",
-            "interp.1d", "table.recovered", "table.constant_equals_scalar"]
+            "interp.1d", "table.recovered", "table.constant_equals_scalar", "table.own_table_in_shared_system"]
 SIZES = {"quick": 70, "thorough": 450}
 ASSUMPTIONS = ["2-D tables with a single io column are excluded (Qhull cannot triangulate collinear points)",
                "vertex / grid-line values are compared to 1e-9 relative (barycentric interpolation rounding)"]
@@ -281,6 +281,36 @@ def run(ctx, case):
         if a == "out" or b == "out":
             nq_out += 1
         ctx.count("query_class", "%s/%s" % (a, b))
+    # two tabulated components in ONE system, queried at the same operating point: each must answer from its own
+    # table (interpolators must not share state)
+    if len(tab["vi"]) > 1 or len(tab["io"]) > 1:
+        raw2 = {"vi": list(raw_tab["vi"]), "io": list(raw_tab["io"]),
+                z: [[G.sig(v * (0.55 + 0.4 * ((3 * a_ + 7 * b_) % 5) / 5.0), 5) for b_, v in enumerate(row)] for a_, row in enumerate(raw_tab[z])]}
+        tab2 = normalised(raw2, z)
+        scale2 = max(max(abs(v) for v in row) for row in tab[z])
+        for io, vi, a, b in [q for q in qs if q[2] == "on" and q[3] == "on"][:3] + qs[:2]:
+            base = probe_spec(kind, z, raw_tab, vi, io)
+            second = probe_spec("PSwitch" if kind == "PMux" else kind, z, raw2, vi, io)  # only one PMux per system
+            x2 = dict(second["comps"][1], name="Y")
+            l2 = dict(second["comps"][2], name="L2", parents=["Y"])
+            spec2 = {"name": "pair", "comps": base["comps"] + [x2, l2], "phases": {}}
+            st, sysobj = H.try_build(spec2)
+            if st != "ok":
+                raise RuntimeError("pair probe rejected: %s" % H.exc_sig(sysobj))
+            st, df = H.solve(sysobj)
+            if st != "ok":
+                continue
+            _, per, _ = M.split_table(df)
+            for nm, tb in (("X", tab), ("Y", tab2)):
+                row = per[""]["rows"][nm]
+                rec = recovered(kind, z, row, vi, io)
+                e = expected(tb, z, io, vi)
+                ref = {"eff": 1.0, "vdrop": abs(vi), "ig": abs(io) + scale2}[z]
+                lo, hi = (e[1], e[1]) if e[0] == "exact" else (e[1], e[2])
+                ok = lo - 1e-6 * ref - 1e-7 <= rec <= hi + 1e-6 * ref + 1e-7
+                ctx.check("table.own_table_in_shared_system", ok,
+                          {"kind": kind, "param": z, "component": nm, "io": io, "vi": vi, "recovered": rec, "expected": list(e),
+                           "own_table": tb, "other_table": tab2 if nm == "X" else tab})
     # constant table == constant
     if case["const"]:
         cval = tab[z][0][0]
